@@ -395,8 +395,9 @@ class FileResponse(Response, FileResponseMixin):
         stat_result = self.stat_result
         file_size = stat_result.st_size
 
-        if "HTTP_RANGE" not in environ or (
-            "HTTP_IF_RANGE" in environ
+        # an empty header value counts as an absent header, as on the ASGI side
+        if not environ.get("HTTP_RANGE") or (
+            environ.get("HTTP_IF_RANGE")
             and not self.judge_if_range(environ["HTTP_IF_RANGE"], stat_result)
         ):
             yield from self.handle_all(send_header_only, file_size, start_response)
